@@ -306,14 +306,16 @@ impl GenericsAnalyzer {
                 _ => None,
             })?;
 
-        let lifted_params = self.trait_generics.params.len();
         let lifted_predicates = self.trait_generics.where_predicates.len();
 
         for (index, param) in generic_params.iter().enumerate() {
             if index != matching_index && !(matches!(param, &syn::GenericParam::Lifetime(_))) {
-                self.trait_generics
-                    .params
-                    .push(lifted_param(param, generics));
+                // what is lifted to the trait may mention the deps parameter as well:
+                use syn::visit_mut::VisitMut;
+                let mut param = lifted_param(param, generics);
+                crate::signature::DepsParamToSelf(generic_param_ident, false)
+                    .visit_generic_param_mut(&mut param);
+                self.lift_param(param);
             }
         }
 
@@ -376,12 +378,8 @@ impl GenericsAnalyzer {
         };
 
         {
-            // what was lifted to the trait may mention the deps parameter as well:
             use syn::visit_mut::VisitMut;
             let mut to_self = crate::signature::DepsParamToSelf(generic_param_ident, false);
-            for param in self.trait_generics.params.iter_mut().skip(lifted_params) {
-                to_self.visit_generic_param_mut(param);
-            }
             // a predicate that mentions it stays on the method (where `Self: Sized` can be required)
             let predicates = std::mem::take(&mut self.trait_generics.where_predicates);
             for (index, mut predicate) in predicates.into_iter().enumerate() {
@@ -402,6 +400,43 @@ impl GenericsAnalyzer {
         })
     }
 
+    /// Make a type or const parameter of a fn a parameter of the trait.
+    /// The fns of a module may use the same name: there is one trait parameter per name,
+    /// with the bounds of all of them.
+    fn lift_param(&mut self, param: syn::GenericParam) {
+        fn ident_of(param: &syn::GenericParam) -> Option<&syn::Ident> {
+            match param {
+                syn::GenericParam::Type(type_param) => Some(&type_param.ident),
+                syn::GenericParam::Const(const_param) => Some(&const_param.ident),
+                syn::GenericParam::Lifetime(_) => None,
+            }
+        }
+
+        let existing = self
+            .trait_generics
+            .params
+            .iter_mut()
+            .find(|existing| ident_of(existing) == ident_of(&param));
+
+        match (existing, param) {
+            (Some(syn::GenericParam::Type(existing)), syn::GenericParam::Type(type_param)) => {
+                for bound in type_param.bounds {
+                    let tokens = quote::ToTokens::to_token_stream(&bound).to_string();
+                    if !existing
+                        .bounds
+                        .iter()
+                        .any(|bound| quote::ToTokens::to_token_stream(bound).to_string() == tokens)
+                    {
+                        existing.colon_token.get_or_insert_with(Default::default);
+                        existing.bounds.push(bound);
+                    }
+                }
+            }
+            (Some(syn::GenericParam::Const(_)), syn::GenericParam::Const(_)) => {}
+            (_, param) => self.trait_generics.params.push(param),
+        }
+    }
+
     /// Move a where predicate of the fn to the trait, unless it mentions one of the fn's
     /// lifetime parameters: those stay on the method, and so must the predicate.
     fn lift_where_predicate(&mut self, predicate: &syn::WherePredicate, generics: &syn::Generics) {
@@ -418,12 +453,10 @@ impl GenericsAnalyzer {
         for param in &generics.params {
             match param {
                 syn::GenericParam::Type(_) => {
-                    self.trait_generics
-                        .params
-                        .push(lifted_param(param, generics));
+                    self.lift_param(lifted_param(param, generics));
                 }
                 syn::GenericParam::Const(_) => {
-                    self.trait_generics.params.push(param.clone());
+                    self.lift_param(param.clone());
                 }
                 syn::GenericParam::Lifetime(_) => {}
             }
